@@ -541,6 +541,14 @@ func (o *oracles) exerciseAllocator(n int) {
 			return
 		}
 		o.xAlloc = &allocMonitor{inner: cpuallocator.NewCPUAllocator(sys), o: o}
+		// a second instance whose topology discovery ran under another map
+		// iteration order: the outcome must not depend on the instance
+		salt := w.vw.OrderSalt
+		w.vw.OrderSalt = 0x3333
+		if sys2, err := sysfs.DiscoverSystem(); err == nil {
+			o.xAlloc2 = cpuallocator.NewCPUAllocator(sys2)
+		}
+		w.vw.OrderSalt = salt
 		o.xRand = verifrt.NewRand(verifrt.Mix(w.seed, "c08-direct"))
 		o.xOnline = sys.OnlineCPUs().List()
 	}
@@ -561,11 +569,26 @@ func (o *oracles) exerciseAllocator(n int) {
 		if r.Chance(0.6) {
 			opts = append(opts, cpuallocator.WithAllocFlags(cpuallocator.AllocFlag(r.Intn(16))))
 		}
-		set := o.xSet.Clone()
-		if r.Chance(0.75) {
-			o.xAlloc.AllocateCpus(&set, cnt, opts...)
+		set, set2 := o.xSet.Clone(), o.xSet.Clone()
+		alloc := r.Chance(0.75)
+		var got, got2 cpuset.CPUSet
+		var err, err2 error
+		if alloc {
+			got, err = o.xAlloc.AllocateCpus(&set, cnt, opts...)
 		} else {
-			o.xAlloc.ReleaseCpus(&set, cnt, opts...)
+			got, err = o.xAlloc.ReleaseCpus(&set, cnt, opts...)
+		}
+		if o.xAlloc2 != nil {
+			if alloc {
+				got2, err2 = o.xAlloc2.AllocateCpus(&set2, cnt, opts...)
+			} else {
+				got2, err2 = o.xAlloc2.ReleaseCpus(&set2, cnt, opts...)
+			}
+			w.res.Check("deterministic")
+			if (err == nil) != (err2 == nil) || !got.Equals(got2) || !set.Equals(set2) {
+				w.res.Violate("C08", "deterministic", "C08 deterministic across-allocator-instances", w.step,
+					"two allocators created on the same system give different outcomes for the same call (%d CPUs of %s): %s (left %s, err %v) vs %s (left %s, err %v)", cnt, o.xSet, got, set, err, got2, set2, err2)
+			}
 		}
 		o.xSet = set
 	}
@@ -650,6 +673,57 @@ func (o *oracles) checkC16(rep reporter) {
 				}
 				if got := idsOf(ch.SharedCPUSet()); !got.equal(want) {
 					bad("cache-sharing", "CPU %d level-%d cache shared by %s, rendered %s", c.ID, ch.Level(), got, want)
+				}
+			}
+		}
+	}
+	// package and die level: CPUs and NUMA nodes of every package and die
+	{
+		type key struct{ pkg, die int }
+		pkgCPUs, pkgNodes := map[int]cset{}, map[int]cset{}
+		dieCPUs, dieNodes := map[key]cset{}, map[key]cset{}
+		add := func(m map[int]cset, k, v int) {
+			if m[k] == nil {
+				m[k] = cset{}
+			}
+			m[k][v] = true
+		}
+		for _, c := range m.CPUs {
+			if !c.Online {
+				continue
+			}
+			add(pkgCPUs, c.Pkg, c.ID)
+			add(pkgNodes, c.Pkg, c.Node)
+			k := key{c.Pkg, c.Die}
+			if !m.HasDieID {
+				k.die = 0
+			}
+			if dieCPUs[k] == nil {
+				dieCPUs[k], dieNodes[k] = cset{}, cset{}
+			}
+			dieCPUs[k][c.ID], dieNodes[k][c.Node] = true, true
+		}
+		for pkg, want := range pkgCPUs {
+			dp := sys.Package(pkg)
+			if dp == nil {
+				bad("package-missing", "package %d not discovered", pkg)
+				continue
+			}
+			if got := idsOf(dp.CPUSet()); !got.equal(want) {
+				bad("package-cpus", "package %d CPUs discovered %s, rendered %s", pkg, got, want)
+			}
+			if got := setOf(dp.NodeIDs()); !got.equal(pkgNodes[pkg]) {
+				bad("package-nodes", "package %d NUMA nodes discovered %s, rendered %s", pkg, got, pkgNodes[pkg])
+			}
+			for k, wantCPUs := range dieCPUs {
+				if k.pkg != pkg {
+					continue
+				}
+				if got := idsOf(dp.DieCPUSet(k.die)); !got.equal(wantCPUs) {
+					bad("die-cpus", "package %d die %d CPUs discovered %s, rendered %s", pkg, k.die, got, wantCPUs)
+				}
+				if got := setOf(dp.DieNodeIDs(k.die)); !got.equal(dieNodes[k]) {
+					bad("die-nodes", "package %d die %d NUMA nodes discovered %s, rendered %s", pkg, k.die, got, dieNodes[k])
 				}
 			}
 		}
